@@ -354,11 +354,15 @@ pub fn check_api(b: &Built, rec: &Recorder, c: &mut Counters) -> u64 {
     let singles: Vec<HashSet<N>> = present.iter().map(|x| [*x].into_iter().collect()).collect();
     let whole: Vec<HashSet<N>> = vec![present.iter().cloned().collect()];
     let foreign: Vec<HashSet<N>> = vec![names.iter().cloned().collect()];
-    for (label, fam) in [("singletons", &singles), ("whole", &whole), ("with_absent", &foreign), ("empty", &vec![])] {
+    // a foreign name standing in for an omitted node (same member count as a true partition)
+    let swapped_singles: Vec<HashSet<N>> = present.iter().enumerate().map(|(i, x)| [if i == 0 { ABSENT } else { *x }].into_iter().collect()).collect();
+    let swapped_whole: Vec<HashSet<N>> = vec![present.iter().enumerate().map(|(i, x)| if i + 1 == present.len() { ABSENT } else { *x }).collect()];
+    let two_blocks: Vec<HashSet<N>> = vec![present.iter().take(present.len() / 2).cloned().collect(), present.iter().skip(present.len() / 2).cloned().collect()];
+    for (label, fam) in [("singletons", &singles), ("whole", &whole), ("with_absent", &foreign), ("empty", &vec![]), ("absent_for_first_node", &swapped_singles), ("absent_for_last_node", &swapped_whole), ("two_blocks", &two_blocks)] {
         cx.call("is_partition", label.into(), false, || v(partitions::is_partition(g, fam)));
         for weighted in [false, true] {
             for res in [None, Some(2.0)] {
-                cx.call("modularity", format!("{label}, {weighted}, {res:?}"), label == "with_absent", || r(partitions::modularity(g, fam, weighted, res)));
+                cx.call("modularity", format!("{label}, {weighted}, {res:?}"), label.contains("absent") && n > 0, || r(partitions::modularity(g, fam, weighted, res)));
             }
         }
     }
